@@ -66,8 +66,10 @@ Proof.
     cbn [base_ident]. destruct (eval_ident e t0 true) as [o|]; [|discriminate].
     destruct (is_undefined o).
     + intros E _; inversion E; subst; auto.
-    + destruct (obj_delete o v); [|discriminate]. intros E Hk; inversion E; subst.
-      split; [|reflexivity]. apply env_set_frame. unfold resolve. intros ->. now apply Hk.
+    + destruct (obj_delete o v) as [o'|]; [|discriminate]. cbn [option_map]. intros E Hk; inversion E; subst.
+      destruct (is_empty_set o').
+      * split; [|reflexivity]. apply env_remove_frame. unfold resolve. intros ->. now apply Hk.
+      * split; [|reflexivity]. apply env_set_frame. unfold resolve. intros ->. now apply Hk.
 Qed.
 
 Lemma eval_actions_frame acts : forall e e' k,
